@@ -1,6 +1,8 @@
 pub mod core;
 pub mod gen;
+pub mod exact;
 pub mod layout;
+pub mod qoracle;
 pub mod props;
 pub mod registry;
 pub mod driver;
